@@ -343,6 +343,57 @@ def r11g(ctx):
                        "parses the indented bytes, so the document in memory is no longer the one that was saved (and the next save writes yet another content)")
 
 
+PARSE_CALLS = {"fromstring", "parse", "XML", "iterparse", "XMLParser", "ETCompatXMLParser", "HTMLParser", "XMLPullParser"}
+LOSSY_PARSER_FLAGS = {"remove_blank_text", "remove_comments", "remove_pis", "strip_cdata", "recover"}
+
+_FIXTURE_H = '''
+def bad(self):
+    parser = XMLParser(remove_blank_text=True)
+    return fromstring(self.serialize(), parser)
+def ok(self, part):
+    return fromstring(part)
+'''
+
+
+def _lossy_parsers(fn: ast.AST) -> list[ast.Call]:
+    out = []
+    for c in ast.walk(fn):
+        if isinstance(c, ast.Call) and call_name(c) in PARSE_CALLS:
+            for k in c.keywords:
+                if k.arg in LOSSY_PARSER_FLAGS and not (isinstance(k.value, ast.Constant) and k.value.value in (False, None)):
+                    out.append(c)
+    return out
+
+
+def r11h(ctx):
+    """Nothing in the package parses XML with a parser that drops content.
+
+    In ODF character content white space is text: a white-space-only text node between two spans is the blank between two words.  A parser
+    built with remove_blank_text (or remove_comments / remove_pis / strip_cdata / recover) silently changes what was read — a tree re-read
+    that way for pretty printing, cloning or loading no longer is the document.  Rule (expected count 0, fixture on every run): no parse
+    entry point of lxml is called with one of those flags set.
+    """
+    repo = ctx.repo
+    ctx.rule("R11h", "no XML is (re-)parsed with a parser that drops blank text, comments, PIs or CDATA", floor=4)
+    n = 0
+    for f in repo.all_funcs():
+        sites = [c for c in walk_no_nested(f.node) if isinstance(c, ast.Call) and call_name(c) in PARSE_CALLS and not isinstance(c.func, ast.Attribute)]
+        if not sites:
+            continue
+        n += 1
+        bad = _lossy_parsers(f.node)
+        ctx.instance("R11h", f"{f.file}:{f.ident}", f"{len(sites)} parse call(s) with the default (content-preserving) parser", ok=not bad, nontrivial=bool(bad), line=f.node.lineno)
+        for b in bad:
+            ctx.report("R11h", f, b, norm(b, 60),
+                       f"{f.ident} parses XML with `{norm(b, 50)}`: white-space-only text nodes (the blank between two inline elements), comments or CDATA are "
+                       f"dropped, so the tree that is indented, saved or cloned is not the document")
+    if n == 0:
+        raise AnalysisError("R11h: no parse call found in the package")
+    got = {fn.name: len(_lossy_parsers(fn)) for fn in ast.parse(_FIXTURE_H).body}
+    if got != {"bad": 1, "ok": 0}:
+        raise AnalysisError(f"R11h fixture: lossy-parser detector broken: {got}")
+
+
 def run(ctx):
     r11a(ctx)
     r11b(ctx)
@@ -350,6 +401,7 @@ def run(ctx):
     r11de(ctx)
     r11f(ctx)
     r11g(ctx)
+    r11h(ctx)
 
 
 from ..selftest import Seed, unparse_seed  # noqa: E402
@@ -358,6 +410,12 @@ _CT = "src/odfdo/container.py"
 _XP = "src/odfdo/xmlpart.py"
 _DOC = "src/odfdo/document.py"
 SEEDS = [
+    Seed("pretty tree re-parsed without blank text", "fault", _XP,
+         "        tree = self._get_tree()\n        # indent a copy: the parsed part must stay as it is\n        root = deepcopy(tree.getroot())\n",
+         "        from lxml.etree import XMLParser, fromstring\n        root = fromstring(self.serialize(), XMLParser(remove_blank_text=True))\n", "R11h"),
+    Seed("pretty tree re-parsed with the default parser", "neutral", _XP,
+         "        tree = self._get_tree()\n        # indent a copy: the parsed part must stay as it is\n        root = deepcopy(tree.getroot())\n",
+         "        from lxml.etree import fromstring\n        root = fromstring(self.serialize())\n"),
     Seed("pretty save parses a part for this save only", "fault", _DOC,
          "                self.__xmlparts[path] = part = cls(path, container)\n                container.set_part(path, part.pretty_serialize())",
          "                part = cls(path, container)\n                container.set_part(path, part.pretty_serialize())", "R11g"),
